@@ -96,7 +96,7 @@ Notation kv := (K * V)%type.
 Lemma insert_ii_full_panics k v u (w : world) :
   WF (self w) -> find_idx ck (ck k) (elems (self w)) = None -> len (self w) = cap (self w) ->
   exists w', insert_ii E debug k v u w = Panic w' /\ self w' = self w /\
-             logged w w' (ev_drops (idK E k ++ idV E v)).
+             logged w w' (ev_drops (idV E v ++ idK E k)).
 Proof.
   intros Hw Hf Hfull.
   destruct (wp_must_panic _ _ _ _ (insert_ii_lawful E debug ck cq HL k v u w Hw)) as (w' & He & Hs & Hl & _).
@@ -107,7 +107,7 @@ Qed.
 Lemma insert_full_panics k v (w : world) :
   WF (self w) -> find_idx ck (ck k) (elems (self w)) = None -> len (self w) = cap (self w) ->
   exists w', insert E debug k v w = Panic w' /\ self w' = self w /\
-             logged w w' (ev_drops (idK E k ++ idV E v)).
+             logged w w' (ev_drops (idV E v ++ idK E k)).
 Proof.
   intros Hw Hf Hfull. destruct (insert_ii_full_panics k v false w Hw Hf Hfull) as (w' & He & Hs & Hl).
   exists w'. split; [|split; assumption]. unfold insert. apply bind_panic. exact He.
@@ -116,7 +116,7 @@ Qed.
 Lemma insert_key_value_full_panics k v (w : world) :
   WF (self w) -> find_idx ck (ck k) (elems (self w)) = None -> len (self w) = cap (self w) ->
   exists w', insert_key_value E debug k v w = Panic w' /\ self w' = self w /\
-             logged w w' (ev_drops (idK E k ++ idV E v)).
+             logged w w' (ev_drops (idV E v ++ idK E k)).
 Proof.
   intros Hw Hf Hfull. destruct (insert_ii_full_panics k v true w Hw Hf Hfull) as (w' & He & Hs & Hl).
   exists w'. split; [|split; assumption]. unfold insert_key_value. apply bind_panic. exact He.
@@ -125,7 +125,7 @@ Qed.
 Lemma vac_insert_full_panics k v (w : world) :
   WF (self w) -> find_idx ck (ck k) (elems (self w)) = None -> len (self w) = cap (self w) ->
   exists w', vac_insert E debug k v w = Panic w' /\ self w' = self w /\
-             logged w w' (ev_drops (idK E k ++ idV E v)).
+             logged w w' (ev_drops (idV E v ++ idK E k)).
 Proof.
   intros Hw Hf Hfull. destruct (insert_ii_full_panics k v false w Hw Hf Hfull) as (w' & He & Hs & Hl).
   exists w'. split; [|split; assumption]. unfold vac_insert. apply bind_panic. exact He.
@@ -135,7 +135,7 @@ Qed.
 Lemma checked_insert_full_none k v (w : world) :
   WF (self w) -> find_idx ck (ck k) (elems (self w)) = None -> len (self w) = cap (self w) ->
   exists w', checked_insert E debug k v w = Ok None w' /\ self w' = self w /\
-             logged w w' (ev_drops (idK E k ++ idV E v)).
+             logged w w' (ev_drops (idV E v ++ idK E k)).
 Proof.
   intros Hw Hf Hfull.
   destruct (wp_must_return _ _ _ (checked_insert_lawful E debug ck cq HL k v w Hw)) as (r & w' & He & _ & _ & H).
@@ -156,7 +156,7 @@ Qed.
 Lemma or_insert_full_panics k v (w : world) :
   WF (self w) -> find_idx ck (ck k) (elems (self w)) = None -> len (self w) = cap (self w) ->
   exists w', (e <- entry_of E k ;; or_insert E debug e v) w = Panic w' /\ self w' = self w /\
-             logged w w' (ev_drops (idK E k ++ idV E v)).
+             logged w w' (ev_drops (idV E v ++ idK E k)).
 Proof.
   intros Hw Hf Hfull. destruct (entry_of_vacant k w Hw Hf) as (w1 & He & Hs1 & Hl1).
   destruct (vac_insert_full_panics k v w1) as (w' & Hv & Hs & Hl); try (rewrite Hs1; assumption).
@@ -209,7 +209,7 @@ Lemma or_insert_with_full_panics k (f : T -> option V * T) (w : world) :
     entry_of E k w = Ok (Vacant k) w1 /\ self w1 = self w /\ log w1 = log w /\
     f (cb w1) = (Some v, s') /\
     (e <- entry_of E k ;; or_insert_with E debug e f) w = Panic w' /\ self w' = self w /\
-    logged w w' ([EvCall 2] ++ ev_drops (idK E k ++ idV E v)).
+    logged w w' ([EvCall 2] ++ ev_drops (idV E v ++ idK E k)).
 Proof.
   intros Hw Hf Hfull Hfn. destruct (entry_of_vacant k w Hw Hf) as (w1 & He & Hs1 & Hl1).
   destruct (Hfn (cb w1)) as (v & s' & Hfv).
@@ -230,7 +230,7 @@ Lemma or_insert_with_key_full_panics k (f : K -> T -> option V * T) (w : world) 
     entry_of E k w = Ok (Vacant k) w1 /\ self w1 = self w /\ log w1 = log w /\
     f k (cb w1) = (Some v, s') /\
     (e <- entry_of E k ;; or_insert_with_key E debug e f) w = Panic w' /\ self w' = self w /\
-    logged w w' ([EvCall 2] ++ ev_drops (idK E k ++ idV E v)).
+    logged w w' ([EvCall 2] ++ ev_drops (idV E v ++ idK E k)).
 Proof.
   intros Hw Hf Hfull Hfn. destruct (entry_of_vacant k w Hw Hf) as (w1 & He & Hs1 & Hl1).
   destruct (Hfn (cb w1)) as (v & s' & Hfv).
@@ -254,7 +254,7 @@ Lemma or_default_full_panics k (d : T -> V * T) (w : world) :
   exists w1 w',
     entry_of E k w = Ok (Vacant k) w1 /\ self w1 = self w /\ log w1 = log w /\
     (e <- entry_of E k ;; or_insert_with E debug e (mk_of d)) w = Panic w' /\ self w' = self w /\
-    logged w w' ([EvCall 2] ++ ev_drops (idK E k ++ idV E (fst (d (cb w1))))).
+    logged w w' ([EvCall 2] ++ ev_drops (idV E (fst (d (cb w1))) ++ idK E k)).
 Proof.
   intros Hw Hf Hfull.
   destruct (or_insert_with_full_panics k (mk_of d) w Hw Hf Hfull) as (w1 & v & s' & w' & He & Hs1 & Hl1 & Hfv & Hr & Hs & Hl).
@@ -282,7 +282,7 @@ Lemma or_insert_with_tied k (f : T -> option V * T) (w : world) :
      (fun w' => self w' = self w /\
                 (exists w1 v s', entry_of E k w = Ok (Vacant k) w1 /\
                                  f (cb w1) = (Some v, s') /\
-                                 logged w w' ([EvCall 2] ++ ev_drops (idK E k ++ idV E v))) /\
+                                 logged w w' ([EvCall 2] ++ ev_drops (idV E v ++ idK E k))) /\
                 find_idx ck (ck k) (elems (self w)) = None /\
                 len (self w) = cap (self w)) w.
 Proof.
@@ -325,7 +325,7 @@ Lemma or_insert_with_key_tied k (f : K -> T -> option V * T) (w : world) :
      (fun w' => self w' = self w /\
                 (exists w1 v s', entry_of E k w = Ok (Vacant k) w1 /\
                                  f k (cb w1) = (Some v, s') /\
-                                 logged w w' ([EvCall 2] ++ ev_drops (idK E k ++ idV E v))) /\
+                                 logged w w' ([EvCall 2] ++ ev_drops (idV E v ++ idK E k))) /\
                 find_idx ck (ck k) (elems (self w)) = None /\
                 len (self w) = cap (self w)) w.
 Proof.
@@ -363,7 +363,7 @@ Notation world := (world K unit T).
 Lemma s_insert_full_panics k (w : world) :
   WF (self w) -> find_idx ck (ck k) (elems (self w)) = None -> len (self w) = cap (self w) ->
   exists w', s_insert E debug k w = Panic w' /\ self w' = self w /\
-             logged w w' (ev_drops (idK E k ++ idV E tt)).
+             logged w w' (ev_drops (idV E tt ++ idK E k)).
 Proof.
   intros Hw Hf Hfull. destruct (insert_full_panics E debug ck cq HL k tt w Hw Hf Hfull) as (w' & He & Hs & Hl).
   exists w'. split; [|split; assumption]. unfold s_insert. apply bind_panic. exact He.
@@ -372,7 +372,7 @@ Qed.
 Lemma s_replace_full_panics k (w : world) :
   WF (self w) -> find_idx ck (ck k) (elems (self w)) = None -> len (self w) = cap (self w) ->
   exists w', s_replace E debug k w = Panic w' /\ self w' = self w /\
-             logged w w' (ev_drops (idK E k ++ idV E tt)).
+             logged w w' (ev_drops (idV E tt ++ idK E k)).
 Proof.
   intros Hw Hf Hfull. destruct (insert_ii_full_panics E debug ck cq HL k tt true w Hw Hf Hfull) as (w' & He & Hs & Hl).
   exists w'. split; [|split; assumption]. unfold s_replace. apply bind_panic. exact He.
@@ -410,6 +410,13 @@ Fixpoint ext_evs (l : list kv) (items : list kv) : list event :=
       ext_evs (ins l k v) rest
   end.
 
+(* the Drop events of a rejected ARGUMENT pair (two parameters k, v of insert:
+   destroyed in reverse declaration order, value first, then key) *)
+Definition arg_drops (p : kv) : list event := ev_drops (idV E (snd p) ++ idK E (fst p)).
+
+Lemma nopull_arg_drops p : filter is_pull (arg_drops p) = [].
+Proof. apply nopull_drops. Qed.
+
 Lemma nopull_pair_drops p : filter is_pull (pair_drops p) = [].
 Proof. apply nopull_drops. Qed.
 
@@ -441,8 +448,10 @@ Qed.
 (* Extend / the loop of FromIterator: exact contents and exact log on both exits.
    On overflow: items = pre ++ x :: post, the container holds exactly what [pre]
    built, x does not fit (new class, container full), the log is
-     what building [pre] logged, the pull that yielded x, the Drop of x,
-     the Drop of every item of [post] (never yielded), and nothing else. *)
+     what building [pre] logged, the pull that yielded x, the Drop of x
+     (arg_drops: x was passed to insert as two arguments, value dies first),
+     the Drop of every item of [post] (never yielded; tuples: key then value),
+     and nothing else. *)
 Lemma extend_loop_overflow nx items :
   (forall s, fst (nx s) <> Boom) -> forall w : world, WF (self w) ->
   wp (extend_loop E debug nx items)
@@ -457,7 +466,7 @@ Lemma extend_loop_overflow nx items :
                   find_idx ck (ck (fst x)) (elems (self w')) = None /\
                   length (elems (self w')) = cap (self w) /\
                   log w' = log w ++ ext_evs (elems (self w)) pre ++ [EvCall 1] ++
-                                    pair_drops x ++ flat_map pair_drops post) w.
+                                    arg_drops x ++ flat_map pair_drops post) w.
 Proof.
   intros Hnx. induction items as [|[k v] rest IH]; intros w Hw; cbn [extend_loop].
   - eapply wp_mono; [apply call_next_lawful; exact Hnx | | intros ? []]; cbn beta.
@@ -502,7 +511,7 @@ Proof.
       { apply l_extend_cons_full; [exact Hf|]. rewrite (elems_length _ Hw). lia. }
       exists [], (k, v), rest. split; [reflexivity|]. split; [reflexivity|]. split; [exact Hf|].
       split; [rewrite (elems_length _ Hw); exact Hfull|].
-      unfold logged in Hlg2, Hlg3. rewrite Hlg3, Hlg2, Hl1. cbn [ext_evs app fst snd]. unfold pair_drops. cbn [fst snd].
+      unfold logged in Hlg2, Hlg3. rewrite Hlg3, Hlg2, Hl1. cbn [ext_evs app fst snd]. unfold arg_drops. cbn [fst snd].
       rewrite <- !app_assoc. reflexivity.
 Qed.
 
@@ -517,7 +526,7 @@ Lemma extend_loop_overflow_panics nx items (w : world) :
     l_extend ck (cap (self w)) (elems (self w)) pre = Some (elems (self w')) /\
     find_idx ck (ck (fst x)) (elems (self w')) = None /\
     length (elems (self w')) = cap (self w) /\
-    log w' = log w ++ ext_evs (elems (self w)) pre ++ [EvCall 1] ++ pair_drops x ++ flat_map pair_drops post.
+    log w' = log w ++ ext_evs (elems (self w)) pre ++ [EvCall 1] ++ arg_drops x ++ flat_map pair_drops post.
 Proof.
   intros Hnx Hw Hov.
   destruct (wp_must_panic _ _ _ _ (extend_loop_overflow nx items Hnx w Hw))
@@ -526,16 +535,46 @@ Proof.
   - exists w', pre, x, post. split; [exact He|]. split; [exact Hw'|]. split; [exact Hc'|]. exact H.
 Qed.
 
-(* finally_drop under a lawful environment: the destructor of the partly built
-   container destroys exactly its entries, in slot order *)
+(* the destructor that runs WHILE UNWINDING over the partly built container
+   (any environment: Drop answers are ignored): it never panics and destroys
+   exactly the entries, in slot order *)
+Lemma unwind_range_exact n : forall i (w : world),
+  (forall j, i <= j < i + n -> live (self w) j) ->
+  wp (unwind_range E n i)
+     (fun _ w' => log w' = log w ++ flat_map pair_drops (take_live (skipn i (slots (self w))) n))
+     (fun _ => False) w.
+Proof.
+  induction n as [|n IH]; intros i w Hl; cbn [unwind_range].
+  - apply wp_ret. cbn [take_live flat_map]. rewrite app_nil_r. reflexivity.
+  - destruct (Hl i ltac:(lia)) as [p Hp].
+    apply wp_bind. eapply wp_p_read; [exact Hp|].
+    apply wp_bind. eapply wp_mono; [apply (unwind_pair_lawful E p) | | intros ? []]; cbn beta.
+    intros _ w2 [Hs2 Hlg2]. simp_w.
+    eapply wp_mono; [apply (IH (S i) w2) | | intros ? []]; cbn beta.
+    + intros j Hj. rewrite Hs2. apply live_set_slot_neq; [lia | apply Hl; lia].
+    + intros _ w3 Hl3. rewrite Hs2 in Hl3. simp_w. rewrite skipn_upd_lt in Hl3 by lia.
+      rewrite (take_live_skipn_S _ i n p Hp). cbn [flat_map].
+      unfold logged in Hlg2. simp_w. rewrite Hl3, Hlg2, <- app_assoc. reflexivity.
+Qed.
+
+Lemma unwind_map_exact (w : world) :
+  WF (self w) ->
+  wp (unwind_map E) (fun _ w' => log w' = log w ++ flat_map pair_drops (elems (self w))) (fun _ => False) w.
+Proof.
+  intros [Hle Hlv]. unfold unwind_map. apply wp_bind. apply wp_get_len.
+  eapply wp_mono; [apply unwind_range_exact | | intros ? []]; cbn beta.
+  - intros j Hj. apply Hlv. lia.
+  - intros _ w' H. exact H.
+Qed.
+
 Lemma wp_finally_drop_log {A} (c : M A) (Qn : A -> world -> Prop) (Qp : world -> Prop) (w : world) :
   wp c Qn (fun w' => WF (self w') /\
                      forall w'', log w'' = log w' ++ flat_map pair_drops (elems (self w')) -> Qp w'') w ->
   wp (finally_drop E c) Qn Qp w.
 Proof.
   unfold wp at 1 2. unfold finally_drop. destruct (c w) as [a w'|w'|]; auto.
-  intros [Hw' HQ]. pose proof (drop_map_lawful E ck cq HL w' Hw') as Hd. unfold wp in Hd.
-  destruct (drop_map E w') as [u w''|w''|]; [|destruct Hd | destruct Hd].
+  intros [Hw' HQ]. pose proof (unwind_map_exact w' Hw') as Hd. unfold wp in Hd.
+  destruct (unwind_map E w') as [u w''|w''|]; [|destruct Hd | destruct Hd].
   apply HQ. exact Hd.
 Qed.
 
@@ -554,7 +593,7 @@ Lemma from_iter_overflow nx items (w : world) :
                   find_idx ck (ck (fst x)) res = None /\
                   length res = cap (self w) /\
                   log w' = log w ++ ext_evs [] pre ++ [EvCall 1] ++
-                                    pair_drops x ++ flat_map pair_drops post ++ flat_map pair_drops res) w.
+                                    arg_drops x ++ flat_map pair_drops post ++ flat_map pair_drops res) w.
 Proof.
   intros Hnx Hw Hlen. unfold from_iter. apply wp_finally_drop_log.
   assert (He : elems (self w) = []) by (unfold elems; rewrite Hlen; reflexivity).
@@ -591,7 +630,7 @@ Proof.
   - intros w' (Hw' & Hc' & Hov & pre & x & post & Hit & Hpre & _ & _ & Hl).
     split; [exact Hw'|]. split; [exact Hc'|]. split; [exact Hov|].
     exists pre, x, post. eexists. split; [exact Hit|]. split; [exact Hpre|]. split; [exact Hl|].
-    rewrite !filter_app, !app_length, pulls_ext_evs, nopull_pair_drops, nopull_flat_drops. cbn. lia.
+    rewrite !filter_app, !app_length, pulls_ext_evs, nopull_arg_drops, nopull_flat_drops. cbn. lia.
 Qed.
 
 Lemma from_iter_full_pulls nx items (w : world) :
@@ -609,7 +648,7 @@ Proof.
     rewrite filter_app, app_length, pulls_ext_evs. cbn. lia.
   - intros w' (_ & pre & x & post & res & Hit & Hpre & _ & _ & Hl).
     exists pre, x, post, res. eexists. split; [exact Hit|]. split; [exact Hpre|]. split; [exact Hl|].
-    rewrite !filter_app, !app_length, pulls_ext_evs, nopull_pair_drops, !nopull_flat_drops. cbn. lia.
+    rewrite !filter_app, !app_length, pulls_ext_evs, nopull_arg_drops, !nopull_flat_drops. cbn. lia.
 Qed.
 
 End BulkExact.
@@ -662,7 +701,7 @@ Lemma s_extend_loop_overflow nx items :
                   find_idx ck (ck x) (elems (self w')) = None /\
                   length (elems (self w')) = cap (self w) /\
                   log w' = log w ++ s_ext_evs (elems (self w)) pre ++ [EvCall 1] ++
-                                    pair_drops E (x, tt) ++ flat_map (pair_drops E) (unit_items post)) w.
+                                    arg_drops E (x, tt) ++ flat_map (pair_drops E) (unit_items post)) w.
 Proof.
   intros Hnx. induction items as [|k rest IH]; intros w Hw; cbn [s_extend_loop unit_items List.map].
   - eapply wp_mono; [apply call_next_lawful; exact Hnx | | intros ? []]; cbn beta.
@@ -705,7 +744,7 @@ Proof.
       { apply l_extend_cons_full; [exact Hf|]. rewrite (elems_length _ Hw). lia. }
       exists [], k, rest. split; [reflexivity|]. split; [reflexivity|]. split; [exact Hf|].
       split; [rewrite (elems_length _ Hw); exact Hfull|].
-      unfold logged in Hlg2, Hlg3. rewrite Hlg3, Hlg2, Hl1. cbn [s_ext_evs app]. unfold pair_drops at 1. cbn [fst snd].
+      unfold logged in Hlg2, Hlg3. rewrite Hlg3, Hlg2, Hl1. cbn [s_ext_evs app]. unfold arg_drops. cbn [fst snd].
       rewrite <- !app_assoc. reflexivity.
 Qed.
 
@@ -720,7 +759,7 @@ Lemma s_extend_loop_overflow_panics nx items (w : world) :
     find_idx ck (ck x) (elems (self w')) = None /\
     length (elems (self w')) = cap (self w) /\
     log w' = log w ++ s_ext_evs (elems (self w)) pre ++ [EvCall 1] ++
-                      pair_drops E (x, tt) ++ flat_map (pair_drops E) (unit_items post).
+                      arg_drops E (x, tt) ++ flat_map (pair_drops E) (unit_items post).
 Proof.
   intros Hnx Hw Hov.
   destruct (wp_must_panic _ _ _ _ (s_extend_loop_overflow nx items Hnx w Hw))
@@ -742,10 +781,10 @@ Lemma s_from_iter_overflow nx items (w : world) :
                   find_idx ck (ck x) res = None /\
                   length res = cap (self w) /\
                   log w' = log w ++ s_ext_evs [] pre ++ [EvCall 1] ++
-                                    pair_drops E (x, tt) ++ flat_map (pair_drops E) (unit_items post) ++
+                                    arg_drops E (x, tt) ++ flat_map (pair_drops E) (unit_items post) ++
                                     flat_map (pair_drops E) res) w.
 Proof.
-  intros Hnx Hw Hlen. unfold s_from_iter. apply (wp_finally_drop_log E ck cq HL).
+  intros Hnx Hw Hlen. unfold s_from_iter. apply (wp_finally_drop_log E).
   assert (He : elems (self w) = []) by (unfold elems; rewrite Hlen; reflexivity).
   eapply wp_mono; [apply (s_extend_loop_overflow nx items Hnx w Hw) | |]; cbn beta; rewrite He.
   - intros _ w' H. exact H.
@@ -777,7 +816,7 @@ Proof.
   - intros w' (Hw' & Hc' & Hov & pre & x & post & Hit & Hpre & _ & _ & Hl).
     split; [exact Hw'|]. split; [exact Hc'|]. split; [exact Hov|].
     exists pre, x, post. eexists. split; [exact Hit|]. split; [exact Hpre|]. split; [exact Hl|].
-    rewrite !filter_app, !app_length, pulls_s_ext_evs, nopull_pair_drops, nopull_flat_drops. cbn. lia.
+    rewrite !filter_app, !app_length, pulls_s_ext_evs, nopull_arg_drops, nopull_flat_drops. cbn. lia.
 Qed.
 
 (* the Set twin of Bulk.from_iter_pulled_once (no [len = 0] premise needed) *)
@@ -810,7 +849,7 @@ Proof.
     rewrite filter_app, app_length, pulls_s_ext_evs. cbn. lia.
   - intros w' (_ & pre & x & post & res & Hit & Hpre & _ & _ & Hl).
     exists pre, x, post, res. eexists. split; [exact Hit|]. split; [exact Hpre|]. split; [exact Hl|].
-    rewrite !filter_app, !app_length, pulls_s_ext_evs, nopull_pair_drops, !nopull_flat_drops. cbn. lia.
+    rewrite !filter_app, !app_length, pulls_s_ext_evs, nopull_arg_drops, !nopull_flat_drops. cbn. lia.
 Qed.
 
 End SetBulkExact.
